@@ -44,6 +44,7 @@ fn main() {
         "C16" => c16::run(replay),
         "C17" => c17::run(replay),
         "C18" => c18::run_check(replay),
+        "C19" => c19::run_check(replay),
         _ => {
             eprintln!("unknown property id {}", id);
             2
